@@ -1023,3 +1023,69 @@ def run_bufmix(prog, ctx=None):
                 res.ob("%s:%s" % (f.qn, norm(show(e, f))[:70]), ok, f, e.get("l", 0),
                        "" if ok else "%s() works on %s but its length is the used size of %s" % (callee_name(e), tgt, ", ".join(sorted(others - {tgt}))))
     return res
+
+
+def run_ctypearg(prog, ctx=None):
+    """CTYPEARG: the index of glibc's <ctype.h> classification table lies in [-128, 255] (its defined domain incl. EOF and signed chars)"""
+    from .ival import ctype_test
+    res = Result("CTYPEARG")
+    files = set(ctx.get("files", [])) if ctx else None
+    sm = Summaries(prog)
+    for f in funcs_of(prog, files):
+        sites = []
+        for b, i, e in f.elements():
+            for n in walk_own(e):
+                ct = ctype_test(n)
+                if ct is not None:
+                    sites.append((b, i, n, ct[0]))
+                elif n.get("k") == "idx":
+                    base = strip(n["a"], all_casts=True)
+                    if base.get("k") == "un" and base.get("op") == "*" and strip(base["e"], all_casts=True).get("k") == "call" \
+                            and callee_name(strip(base["e"], all_casts=True)) in ("__ctype_tolower_loc", "__ctype_toupper_loc"):
+                        sites.append((b, i, n, n["i"]))
+        if not sites:
+            continue
+        an = Analysis(prog, f, summaries=sm).run()
+        for b, i, n, arg in sites:
+            v = an.val(b.id, i, arg)
+            if v is None:
+                continue
+            ok = v.within(-128, 255)
+            res.ob("%s:%s" % (f.qn, norm(show(arg, f))[:50]), ok, f, n.get("l", 0),
+                   "" if ok else "<ctype.h> table indexed with %s (domain [-128,255])" % v, {"interval": v.tojson()})
+    return res
+
+
+def run_getcwho(prog, ctx=None):
+    """GETCWHO: the parser input callback is invoked only by the three character readers (one getc per consumed character, no re-read path)"""
+    res = Result("GETCWHO")
+    allowed = {"mpt_parse_getchar": "reads one character and records it in the path buffer",
+               "mpt_parse_nextvis": "skips white space one character at a time",
+               "mpt_parse_endline": "discards the rest of a comment line one character at a time"}
+    n = 0
+    for f in sorted(prog.functions.values(), key=lambda f: (f.file, f.line)):
+        if f.nocfg:
+            continue
+        for b, i, e in f.elements():
+            if e.get("k") == "call" and e.get("callee") is not None:
+                c = strip(e["callee"], all_casts=True)
+                if c.get("k") == "mem" and c.get("f") == "getc" and c.get("rec", "").split("::")[-1] in ("mpt_parser_input", "parser_input"):
+                    n += 1
+                    ok = f.name in allowed
+                    res.ob("%s:%s" % (f.qn, norm(show(e, f))), ok, f, e.get("l", 0),
+                           "" if ok else "parser input read outside the three character readers: a character can be consumed without being accounted for")
+        # nobody puts characters back: no store to the input state other than the line counter
+        for b, i, e in f.elements():
+            for m in walk_own(e):
+                if m.get("k") == "bin" and m["op"].endswith("=") and m["op"] not in ("==", "!=", "<=", ">="):
+                    l = strip(m["a"], lvalue_to_rvalue=False)
+                    if l.get("k") == "mem" and l.get("rec", "").split("::")[-1] in ("mpt_parser_input", "parser_input") and l.get("f") in ("getc", "arg"):
+                        from .rules_effect import root_of
+                        rid = root_of(l)
+                        # setting up a fresh local context is initialisation; changing the caller's context is a replaced source
+                        ok = not any(p["id"] == rid for p in f.params)
+                        res.ob("%s:%s" % (f.qn, norm(show(m, f))[:60]), ok, f, m.get("l", 0),
+                               "" if ok else "a parser stage replaces the input source while parsing")
+    if n < 3:
+        raise Broken("GETCWHO: %d getc call sites found" % n)
+    return res
